@@ -61,6 +61,22 @@ func (g *Gen) KnownPrograms(startPID, per int) []*ps.Program {
 				}
 			}
 			g.order(p)
+			p.Wrap = true
+			add(p, "names", "names")
+		}
+		// names, bare: the same without the logging wrapper around the arguments, so that the
+		// arguments are plain identifiers / &identifiers named like generated locals.
+		{
+			p := g.flowWhere(pid, func(p *ps.Program) bool { return len(p.Params) > 0 && len(p.Results) > 0 })
+			for _, t := range p.Tasks {
+				if noExt(t) {
+					t.Form = "lit"
+				}
+			}
+			// the first Params value is also a Results target (its variable gets the generated name)
+			p.Results = append([]int{p.Params[0]}, p.Results...)
+			g.order(p)
+			p.Wrap = false
 			add(p, "names", "names")
 		}
 		// aiorder: NEW finding — -auto-instrument skips tasks listed before
